@@ -441,7 +441,7 @@ def run(ck: Check) -> None:
             g_viol.append((A.shape[0], what, {"kind": "guard-clause", "dtype": dtype, "matrix_kind": kind, "A": A.tolist(), "p": p, "eps": eps, "rel_epsilon": rel,
                                               "order": order, "max_iterations": mi, "tolerance": tol, "measured": r}))
     if g_viol:
-        g_viol.sort(key=lambda v: v[0])
+        g_viol.sort(key=lambda v: (0 if ("exceeds its guard" in v[1] or "non-finite" in v[1]) else 1, v[0]))   # a broken guard first, smallest n first
         nA, what, robj = g_viol[0]
         # certified confirmation on the smallest failing input when it is small enough for vm_compute: C10_checkb in binary64
         if nA <= 16:
